@@ -24,7 +24,8 @@ ASSUMPTIONS = [
 ]
 REQUIRED = {"op.append": 200, "op.extend": 100, "op.iterate.nested": 100, "op.iterate.zip": 50, "op.iterate.abandoned": 50,
             "op.write-through": 200, "op.dump": 100, "op.serialise": 50, "inspect": 3000, "view.checked": 3000,
-            "op.slice": 50, "view.held-checked": 300, "op.grow-refused": 30, "source.checked": 300, "op.write-through.held": 30, "construct.list": 20, "construct.molecule": 20, "construct.ensemble": 20, "construct.atoms": 20}
+            "op.slice": 50, "view.held-checked": 300, "op.grow-refused": 30, "source.checked": 300, "op.write-through.held": 30, "construct.list": 20, "construct.molecule": 20, "construct.ensemble": 20, "construct.atoms": 20,
+            "bystander.checked": 300, "op.edit-constructor-source": 30}
 CHUNK_TIMEOUT = 900
 TECHNIQUE = "runtime monitoring: rectangular-array reference model stepped beside the real ensemble + iteration-pattern oracle"
 LEVEL_TEXT = ("Held on the operation histories produced: after every operation the ensemble's three arrays, every conformer view "
@@ -74,6 +75,7 @@ def construct(rng, ctx):
 
     base = base_molecule(rng)
     na = base.n_atoms
+    by = []     # objects the ensemble was constructed from: (object, coords, charges, weights) that must stay what they are
     route = rng.choice(["molecule", "list", "ensemble", "atoms"])
     ctx.count(f"construct.{route}")
     nc = rng.choice([1, 2, 3, 5])
@@ -92,9 +94,11 @@ def construct(rng, ctx):
             mols.append(m)
         e = ml.ConformerEnsemble(mols)
         ws = np.ones(nc)
+        by = [(m, np.array(m.coords), np.array(m.atomic_charges), None) for m in mols[:2]]
     elif route == "ensemble":
         e0 = ml.ConformerEnsemble(base, n_conformers=nc, coords=cs, atomic_charges=qs, weights=ws)
         e = ml.ConformerEnsemble(e0)
+        by = [(e0, np.array(cs), np.array(qs), np.array(ws))]
     else:
         if rng.random() < 0.3:
             nc = 0
@@ -103,7 +107,7 @@ def construct(rng, ctx):
                                  coords=cs if nc else None, atomic_charges=qs if nc else None, weights=ws if nc else None)
         for b in base.bonds:
             e.connect(base.atoms.index(b.a1), base.atoms.index(b.a2), btype=b.btype)
-    return e, Model(cs.reshape(nc, na, 3), qs.reshape(nc, na), ws.reshape(nc)), base, route
+    return e, Model(cs.reshape(nc, na, 3), qs.reshape(nc, na), ws.reshape(nc)), base, route, by
 
 
 def close(a, b, exact):
@@ -124,6 +128,7 @@ class Driver:
         self.ok = True
         self.grown_at = None
         self.held = []          # (row, conformer object) taken earlier and kept across later operations
+        self.bystanders = []    # what the ensemble was constructed from; edits on either side stay on that side
         self.sources = []       # (geometry that was appended / extended with, copy of its coordinates): must stay untouched
 
     def v(self, key, **detail):
@@ -150,6 +155,10 @@ class Driver:
             ctx.count("source.checked")
             if not close(g.coords, c0, True):
                 return self.v(f"{after}:geometry-that-was-appended-changes-with-the-ensemble")
+        for o, c0, q0, w0 in self.bystanders:
+            ctx.count("bystander.checked")
+            if not close(o.coords, c0, True) or not close(o.atomic_charges, q0, True) or (w0 is not None and not close(o.weights, w0, True)):
+                return self.v(f"{after}:object-the-ensemble-was-constructed-from-changes-with-it", kind=type(o).__name__)
         # conformers taken earlier stay live views of their row (also after the ensemble grew or moved)
         for row, c in self.held:
             ctx.count("view.held-checked")
@@ -205,6 +214,30 @@ class Driver:
         import molli as ml
 
         e, m, ctx = self.e, self.m, self.ctx
+        if self.bystanders and rng.random() < 0.12:
+            # an in-place edit of what the ensemble was constructed from must not reach the ensemble
+            k = rng.randrange(len(self.bystanders))
+            o, c0, q0, w0 = self.bystanders[k]
+            how = rng.choice(["translate", "coords-inplace", "charges-inplace", "weights-inplace"])
+            self.kinds.append(f"edit-constructor-source:{how}")
+            ctx.count("op.edit-constructor-source")
+            try:
+                if how == "translate":
+                    o.translate([1.0, -2.0, 0.5])
+                    c0 = np.array(o.coords)
+                elif how == "coords-inplace":
+                    o.coords[...] = o.coords * 0.5 + 1.0
+                    c0 = np.array(o.coords)
+                elif how == "charges-inplace":
+                    o.atomic_charges[...] = o.atomic_charges - 0.25
+                    q0 = np.array(o.atomic_charges)
+                elif w0 is not None:
+                    o.weights[...] = o.weights * 3.0
+                    w0 = np.array(o.weights)
+            except Exception as ex:  # noqa
+                ctx.note(f"edit of constructor source raised {type(ex).__name__}")
+            self.bystanders[k] = (o, c0, q0, w0)
+            return self.inspect(self.kinds[-1])
         r = rng.random()
         exact = True
         try:
@@ -542,11 +575,12 @@ def run_chunk(spec, ctx):
             continue
         rng = ctx.rng(*case)
         try:
-            ens, model, base, route = construct(rng, ctx)
+            ens, model, base, route, by = construct(rng, ctx)
         except Exception as ex:  # noqa
             ctx.violation(f"construct:raises:{type(ex).__name__}", case=case, err=repr(ex)[:200])
             continue
         d = Driver(ctx, case, ens, model, base)
+        d.bystanders = by
         d.kinds.append(f"construct:{route}")
         d.inspect("construct")
         for _ in range(rng.randrange(4, 26)):
